@@ -152,18 +152,25 @@ func N(quick, thorough int) int {
 }
 
 func loadFindings() {
-	b, err := os.ReadFile(C.Findings)
-	if err != nil {
-		return
-	}
-	var all []Finding
-	if err = json.Unmarshal(b, &all); err != nil {
-		fmt.Fprintf(os.Stderr, "known_findings.json: %s\n", err)
-		os.Exit(3)
-	}
-	for _, f := range all {
-		if f.Property == C.Property {
-			fnd = append(fnd, f)
+	files := []string{C.Findings}
+	// per-property fragments used while several checks are developed side by side; merged into the main file
+	more, _ := filepath.Glob(filepath.Join(filepath.Dir(C.Findings), "known_findings.d", "*.json"))
+	sort.Strings(more)
+	files = append(files, more...)
+	for _, path := range files {
+		b, err := os.ReadFile(path)
+		if err != nil {
+			continue
+		}
+		var all []Finding
+		if err = json.Unmarshal(b, &all); err != nil {
+			fmt.Fprintf(os.Stderr, "%s: %s\n", path, err)
+			os.Exit(3)
+		}
+		for _, f := range all {
+			if f.Property == C.Property {
+				fnd = append(fnd, f)
+			}
 		}
 	}
 }
